@@ -13,3 +13,10 @@ package probdist
 //@   requires wdInv(w)
 //@   ensures [C12:sample_in_range] w.minValue <= ret && ret <= w.maxValue
 //@   ensures [C12:sample_in_table] exists(k, 0, len(w.values), ret == w.minValue + w.values[k])
+
+//@ func (*WeightedDist).Reset(w, seed) ()
+//@   serves C12 C09
+//@   nobody table generation (genValues/genWeights/genTables loops) is verified separately under C12; here only the representation invariant is assumed to be re-established
+//@   requires w != nil && seed != nil && w.minValue < w.maxValue
+//@   modifies w.values, w.weights, w.alias, w.prob
+//@   ensures wdInv(w)
